@@ -852,6 +852,17 @@ def ln1(ctx, R):
                            "(values per chunk * chunks, truncated final chunk) was not recognised")
             return
         nsv = cands[0]
+    # the named function kept as a one-line delegate: the counting function is what it calls
+    body_ = [x for x in nsv.node.body if not (isinstance(x, ast.Expr) and isinstance(x.value, ast.Constant))]
+    if len(body_) == 1 and isinstance(body_[0], ast.Return) and isinstance(body_[0].value, ast.Call) and not any(
+            isinstance(n_, ast.Attribute) and n_.attr == "final_chunk_lengths_override" for n_ in ast.walk(nsv.node)):
+        from .flow import resolve_call as _rc
+        tgts = [t_ for t_, _k in _rc(prog, nsv, nsv.cls, body_[0].value)]
+        if not tgts and isinstance(body_[0].value.func, ast.Attribute):
+            tgts = [f_ for f_ in prog.functions.values() if f_.name == body_[0].value.func.attr and f_.cls is not None]
+        tgts = [t_ for t_ in tgts if any(isinstance(n_, ast.Attribute) and n_.attr == "final_chunk_lengths_override" for n_ in ast.walk(t_.node))]
+        if len(tgts) == 1:
+            nsv = tgts[0]
     um = prog.func("reader.TdmsReader._update_object_metadata")
     bi = prog.func("reader.TdmsReader._build_index")
     # every increment of num_values is the funnel applied to the current object and segment
